@@ -91,23 +91,23 @@ cdef class _cyExpression:
 
         if ui == vi:
             if self.parent.cppcqm.vartype(ui) == cppVartype.SPIN:
-                raise ValueError(f"SPIN variables (e.g. {self.variables[ui]!r}) "
+                raise ValueError(f"SPIN variables (e.g. {u!r}) "
                                  "cannot have interactions with themselves"
                                  )
             if self.parent.cppcqm.vartype(ui) == cppVartype.BINARY:
-                raise ValueError(f"BINARY variables (e.g. {self.variables[ui]!r}) "
+                raise ValueError(f"BINARY variables (e.g. {u!r}) "
                                  "cannot have interactions with themselves"
                                  )
 
         if not self.parent.REAL_INTERACTIONS:
             if self.parent.cppcqm.vartype(ui) == cppVartype.REAL:
                 raise ValueError(
-                    f"REAL variables (e.g. {self.variables[ui]!r}) "
+                    f"REAL variables (e.g. {u!r}) "
                     "cannot have interactions"
                     )
             if self.parent.cppcqm.vartype(vi) == cppVartype.REAL:
                 raise ValueError(
-                    f"REAL variables (e.g. {self.variables[vi]!r}) "
+                    f"REAL variables (e.g. {v!r}) "
                     "cannot have interactions"
                     )
 
